@@ -150,6 +150,9 @@ func genCase(r *rng.R, tier string, i int) corr.Case {
 		n = r.Range(8, 90)
 	}
 	cls := r.Intn(100)
+	if tier != "quick" && (cls == 85 || (cls >= 75 && cls < 78)) && !r.Chance(1, 5) {
+		cls = 0 // very long lists and child-process stress runs keep roughly their absolute number in the big tiers
+	}
 	switch {
 	case cls < 40: // mixed
 		lines := []string{fmt.Sprintf("new %s %d", kd, capacity)}
